@@ -7,6 +7,10 @@ import (
 	"github.com/go-kid/ioc/container/processors"
 
 	"github.com/go-kid/ioc/app"
+	"github.com/go-kid/ioc/configure"
+	"github.com/go-kid/ioc/container"
+	"github.com/go-kid/ioc/container/factory"
+	"github.com/go-kid/ioc/container/support"
 	"github.com/go-kid/ioc/definition"
 	"github.com/go-kid/ioc/syslog"
 	"github.com/go-kid/ioc/util/vsync"
@@ -102,9 +106,12 @@ type c14Case struct {
 	// StartFails (wired): the start that wires the closers fails - 1: a runner returns an error (every
 	// closer was registered with the App before); 2: a component created after the App and the closers
 	// fails in its Init. Close after such a start still reaches every closer the App was given.
-	StartFails int   `json:"start_fails,omitempty"`
-	Bound      int   `json:"preemption_bound"`
-	Script     []int `json:"schedule,omitempty"`
+	StartFails int `json:"start_fails,omitempty"`
+	// Infra (wired, one closer): the closer is at the same time the App's own Configure (1), Factory (2)
+	// or singleton registry (3), installed with the matching option and registered as a component
+	Infra  int   `json:"closer_is_app_infrastructure,omitempty"`
+	Bound  int   `json:"preemption_bound"`
+	Script []int `json:"schedule,omitempty"`
 }
 
 func c14Gen(c *core.Ctx) func(yield func(c14Case) bool) {
@@ -141,6 +148,14 @@ func c14Gen(c *core.Ctx) func(yield func(c14Case) bool) {
 			}
 			if n >= 1 && !yield(c14Case{N: n, Fail: 0, Steps: 0, Slow: -1, Wired: true, Both: true, Bound: bound}) {
 				return
+			}
+			// a closer that is also a piece of the App's own infrastructure
+			for infra := 1; infra <= 3 && n == 1; infra++ {
+				for _, fail := range []int{0, 1} {
+					if !yield(c14Case{N: 1, Fail: fail, Steps: 0, Slow: -1, Wired: true, Infra: infra, Bound: bound}) {
+						return
+					}
+				}
 			}
 			// Close after a start that failed
 			for sf := 1; sf <= 2 && n >= 1 && n <= 2; sf++ {
@@ -291,6 +306,18 @@ func c14Run(c *core.Ctx) {
 				}
 				anys = append(anys, sc)
 			}
+			var infraOpts []app.SettingOption
+			switch cs.Infra {
+			case 1:
+				x := &c14Cfg{Configure: configure.Default(), c14Closer: closers[0]}
+				anys, infraOpts = []any{x}, []app.SettingOption{app.SetConfigure(x), app.SetConfigLoader()}
+			case 2:
+				x := &c14Fac{Factory: factory.Default(), c14Closer: closers[0]}
+				anys, infraOpts = []any{x}, []app.SettingOption{app.SetFactory(x)}
+			case 3:
+				x := &c14Reg{SingletonRegistry: support.NewRegistry(), c14Closer: closers[0]}
+				anys, infraOpts = []any{x}, []app.SettingOption{app.SetRegistry(x)}
+			}
 			switch cs.StartFails {
 			case 1:
 				anys = append(anys, &c14FailRunner{})
@@ -323,7 +350,7 @@ func c14Run(c *core.Ctx) {
 					return
 				}
 				closers = given
-			} else if err := a.Run(app.SetComponents(anys...)); err != nil || len(a.CloserComponents) != cs.N {
+			} else if err := a.Run(append(infraOpts, app.SetComponents(anys...))...); err != nil || len(a.CloserComponents) != cs.N {
 				c.Report("C14/wiring/"+core.Hash(cs), "not-exactly-once", fmt.Sprintf("after a real start App.Close knows %d closers for %d registered ones (closers are runners too: %v, err=%v): a closer is missing (it can never be closed) or listed twice", len(a.CloserComponents), cs.N, cs.Both, err), cs)
 				return
 			}
@@ -360,7 +387,7 @@ func c14Run(c *core.Ctx) {
 			cc := cs
 			cc.Script = e.Script
 			key := func(kind string) string {
-				return "C14/" + kind + "/" + core.Hash(cs.N, cs.Fail, cs.Steps, cs.Slow, cs.Wired, cs.AppDep, cs.Late, cs.Claim, cs.Second, cs.OrdMask, cs.StartFails)
+				return "C14/" + kind + "/" + core.Hash(cs.N, cs.Fail, cs.Steps, cs.Slow, cs.Wired, cs.AppDep, cs.Late, cs.Claim, cs.Second, cs.OrdMask, cs.StartFails, cs.Infra)
 			}
 			switch {
 			case e.Deadlock:
@@ -428,6 +455,28 @@ func c14Run(c *core.Ctx) {
 	})
 }
 
+// closers that are the App's own infrastructure at the same time
+type c14Cfg struct {
+	configure.Configure
+	*c14Closer
+}
+
+func (*c14Cfg) Naming() string { return "infra-configure" }
+
+type c14Fac struct {
+	container.Factory
+	*c14Closer
+}
+
+func (*c14Fac) Naming() string { return "infra-factory" }
+
+type c14Reg struct {
+	container.SingletonRegistry
+	*c14Closer
+}
+
+func (*c14Reg) Naming() string { return "infra-registry" }
+
 type c14FailRunner struct{}
 
 func (*c14FailRunner) Naming() string { return "zzz-failing-runner" }
@@ -456,6 +505,12 @@ func c14Of(cc definition.CloserComponent) *c14Closer {
 	case *c14ViaRunCloser:
 		return x.c14Closer
 	case *c14Ordered:
+		return x.c14Closer
+	case *c14Cfg:
+		return x.c14Closer
+	case *c14Fac:
+		return x.c14Closer
+	case *c14Reg:
 		return x.c14Closer
 	}
 	return nil
